@@ -8,6 +8,7 @@ package storage
 // unexported state read-only; no behaviour is changed.
 
 import (
+	"context"
 	"sync"
 
 	"github.com/marekgalovic/anndb/cluster"
@@ -69,6 +70,11 @@ func (this *VerifPartitionSM) Apply(data []byte, notifId uuid.UUID) (interface{}
 func (this *VerifPartitionSM) Snapshot() ([]byte, error) { return this.p.snapshot() }
 func (this *VerifPartitionSM) Restore(data []byte) error { return this.p.processSnapshot(data) }
 func (this *VerifPartitionSM) Index() *index.Hnsw        { return this.p.index }
+
+// Search answers a k-NN query the way the partition answers Dataset.Search / SearchPartitions.
+func (this *VerifPartitionSM) Search(ctx context.Context, query []float32, k uint) (index.SearchResult, error) {
+	return this.p.search(ctx, query, k)
+}
 
 // ---- datasets for simulated nodes -----------------------------------------
 
